@@ -77,13 +77,13 @@ var kinds = fs("t")
 var Projections = map[string]*Projection{
 	// reply kinds and order, command tag, row count facts, DataWriter returns and Written()
 	"C05": {SkipPreamble: true, Recv: map[string]fieldSet{"*": kinds, "C": fs("tag"), "D": fs("n"), "T": fs("n")},
-		Cb: map[string]fieldSet{"*": fs("ret", "written", "q", "def", "si")}},
+		Cb: map[string]fieldSet{"*": fs("ret", "written", "q", "def", "si", "wcols")}},
 	// reply kinds only; which callbacks run
 	"C06": {SkipPreamble: true, Recv: map[string]fieldSet{"*": kinds},
 		Cb: map[string]fieldSet{"*": fs("q", "def")}},
 	// which definition ran with which parameters; describe replies
 	"C07": {SkipPreamble: true, Recv: map[string]fieldSet{"*": kinds, "T": fs("n", "fmts", "names"), "t": fs("n")},
-		Cb: map[string]fieldSet{"*": fs("q", "def", "si", "params", "key", "hit")}},
+		Cb: map[string]fieldSet{"*": fs("q", "def", "si", "params", "key", "hit", "wcols")}},
 	"C08": {SkipPreamble: true, Recv: map[string]fieldSet{"*": kinds, "T": fs("n", "fmts", "oids"), "t": fs("n", "oids"), "D": fs("n", "cells")},
 		Cb: map[string]fieldSet{"*": fs("q", "def", "si", "params")}},
 	"C01": {Recv: map[string]fieldSet{"*": kinds, "R": fs("code"), "E": fs("cls")},
@@ -91,7 +91,7 @@ var Projections = map[string]*Projection{
 	"C12": {Global: true, Recv: map[string]fieldSet{"*": kinds, "R": fs("code"), "S": fs("key", "val"), "Z": fs("st"), "ssl": fs("b")},
 		Cb: map[string]fieldSet{"*": fs("q", "def", "ret", "cp", "sp", "i", "db", "user")}},
 	"C13": {SkipPreamble: true, Recv: map[string]fieldSet{"*": kinds, "G": fs("fmt", "n", "fmts")},
-		Cb: map[string]fieldSet{"*": fs("q", "def", "si", "ret", "dig")}},
+		Cb: map[string]fieldSet{"*": fs("q", "def", "si", "ret", "dig", "rcols", "wcols")}},
 	"C17": {SkipPreamble: true, Recv: map[string]fieldSet{"*": kinds, "E": fs("wf", "dup", "sev", "code", "msg", "hint", "detail", "cons", "file", "line", "fn", "src", "hasmsg")},
 		Cb: map[string]fieldSet{"*": fs("q", "def")}},
 	"C19": {Recv: map[string]fieldSet{"*": kinds},
@@ -115,7 +115,7 @@ var Projections = map[string]*Projection{
 		Cb: map[string]fieldSet{"*": fs("q", "def")}},
 	// isolation: everything a connection sees and everything its callbacks see, except row payload encodings
 	"C15": {Recv: map[string]fieldSet{"*": kinds, "S": fs("key", "val"), "T": fs("n", "names", "oids", "tables", "attrs"), "D": fs("n", "cells"), "C": fs("tag"), "R": fs("code")},
-		Cb: map[string]fieldSet{"*": fs("q", "def", "si", "params", "ret", "written", "cp", "sp", "mw", "i", "intact", "db", "user", "pw")}},
+		Cb: map[string]fieldSet{"*": fs("q", "def", "si", "params", "ret", "written", "cp", "sp", "mw", "i", "intact", "db", "user", "pw", "wcols")}},
 	// robustness: reply kinds, which callbacks ran, allocation per hostile message
 	"C04": {Alloc: true, Recv: map[string]fieldSet{"*": kinds, "R": fs("code"), "ssl": fs("b")},
 		Cb: map[string]fieldSet{"*": fs("q", "def", "ret")}},
